@@ -8,10 +8,11 @@ from sx import is_sym, sand, sor, snot
 
 
 class MathStub:
-    def __init__(self, g, tag="m", pairwise=True):
+    def __init__(self, g, tag="m", pairwise=True, signs=True):
         self.g = g
         self.tag = tag
         self.pairwise = pairwise     # relate every call to all earlier ones (monotone, functional)
+        self.signs = signs           # sign of log(x) / position of exp(x) relative to 1
         self.logs = []     # (arg, value)
         self.exps = []
         self.calls = []    # ("log"|"exp", arg, value) in call order
@@ -44,7 +45,8 @@ class MathStub:
         if not (x > 0):
             raise ValueError("math domain error")
         y = g.real(f"{self.tag}LOG{len(self.logs)}")
-        g.assume(sand(sor(snot(x > 1), y > 0), sor(snot(x == 1), y == 0), sor(snot(x < 1), y < 0)))
+        if self.signs:
+            g.assume(sand(sor(snot(x > 1), y > 0), sor(snot(x == 1), y == 0), sor(snot(x < 1), y < 0)))
         self._consistent(self.logs, x, y)
         for xe, ye in (self.exps if self.pairwise else []):      # exp(log(x)) == x  where both occur
             g.assume(sor(snot(xe == y), ye == x))
@@ -55,7 +57,10 @@ class MathStub:
     def exp(self, x):
         g = self.g
         y = g.real(f"{self.tag}EXP{len(self.exps)}")
-        g.assume(sand(y > 0, sor(snot(x > 0), y > 1), sor(snot(x == 0), y == 1), sor(snot(x < 0), y < 1)))
+        if self.signs:
+            g.assume(sand(y > 0, sor(snot(x > 0), y > 1), sor(snot(x == 0), y == 1), sor(snot(x < 0), y < 1)))
+        else:
+            g.assume(y > 0)
         self._consistent(self.exps, x, y)
         for xl, yl in (self.logs if self.pairwise else []):
             g.assume(sor(snot(yl == x), y == xl))
